@@ -363,6 +363,23 @@ def run_check(pid, tier, replay_path=None):
                 log("note: open finding %s no longer reproduces" % e["id"])
                 ctx.notes.append("open finding %s did not reproduce in this run" % e["id"])
 
+    # 4b. corpus: concrete inputs on which earlier (seeded) regressions failed; they pass on a tree where
+    # the property holds and are replayed before anything is generated
+    import glob
+    ncorp = 0
+    for f in sorted(glob.glob(os.path.join(core.VERIF, "seeded", pid, "*", "replay.json")) +
+                    glob.glob(os.path.join(core.VERIF, "corpus", pid, "*.json"))):
+        try:
+            data = json.load(open(f, encoding="utf-8"))
+            msg = mod.replay(ctx, data)
+        except Exception as ex:  # noqa: BLE001
+            msg = None
+            ctx.notes.append("corpus entry %s could not be replayed: %r" % (os.path.relpath(f, core.VERIF), ex))
+        ncorp += 1
+        if msg:
+            ctx.violation("corpus input %s fails: %s" % (os.path.relpath(f, core.VERIF), msg), data)
+    ctx.extra["corpus_inputs_replayed"] = ncorp
+
     # 5. corpus + generated cases
     try:
         mod.run(ctx)
